@@ -232,6 +232,8 @@ def complexType (parse : CtParse) (frozen : Bool) (name : Bytes) (s : Bytes) : E
           match parseU16 (skipBlankComma s3) with
           | none => .error "int"
           | some (dim, s4) =>
+            -- fix 2a278cb: only positive dimensions (a zero-sized element could be "read" from no input)
+            if dim = 0 then .error "zerodim" else
             match accept RPAREN s4 with
             | none => .error "unexpchar"
             | some s5 => .ok (.vector t dim, s5)
